@@ -1530,7 +1530,7 @@ class Interp:
                     out = out + Tmpl.lit("%")
                 elif c in "sr":
                     if k >= len(args):
-                        raise Unsupported("not enough % arguments")
+                        raise RaiseSig("TypeError", site, "not enough arguments for format string")
                     out = out + self.render(args[k], "str" if c == "s" else "repr", site)
                     k += 1
                 elif c == "d" and k < len(args):
@@ -1542,6 +1542,9 @@ class Interp:
             else:
                 out = out + Tmpl.lit(fmt[i])
                 i += 1
+        if k < len(args):
+            # a tuple operand is unpacked: every element needs its own directive
+            raise RaiseSig("TypeError", site, "not all arguments converted during string formatting")
         return out
 
     def ev_Compare(self, n, env):
@@ -1605,12 +1608,37 @@ class Interp:
                 return False
             return False
         if isinstance(a, Opaque) or isinstance(b, Opaque):
+            if isinstance(a, Opaque) and isinstance(b, Opaque) and a.tag == b.tag == "object-id":
+                if getattr(self, "trace", None) is not None:
+                    self.trace.append(("compare", a, b, site))
+                if a.payload is b.payload:
+                    return True
+                return self.choose(f"id() of {_describe(a.payload)} equals the remembered id() of {_describe(b.payload)} (an address reused after "
+                                   f"the earlier object was freed) at {site}")
+            if (isinstance(a, Opaque) and a.tag == "object-id") or (isinstance(b, Opaque) and b.tag == "object-id"):
+                return False
+            if (isinstance(a, Opaque) and a.tag == "len-of") or (isinstance(b, Opaque) and b.tag == "len-of"):
+                if isinstance(a, Opaque) and isinstance(b, Opaque) and a.tag == b.tag and a.payload is b.payload:
+                    return True
+                if all((isinstance(x, Opaque) and x.tag == "len-of") or (isinstance(x, int) and not isinstance(x, bool) and x >= 0) for x in (a, b)):
+                    return self.choose(f"the length {_describe(a.payload) if isinstance(a, Opaque) else a} equals "
+                                       f"{_describe(b.payload) if isinstance(b, Opaque) else b} at {site}")
+                return False
             hook = getattr(self, "opaque_equal", None)
             if hook is not None and isinstance(a, Opaque) and isinstance(b, Opaque):
                 r_ = hook(a, b, site)
                 if r_ is not None:
                     return r_
             return a is b
+        if isinstance(a, Magnitude) != isinstance(b, Magnitude) and (_isnum(a) or _isnum(b)):
+            mag, c = (a, b) if isinstance(a, Magnitude) else (b, a)
+            if c == float("inf"):
+                return mag.sym.overflow
+            if c != c or c < 0:
+                return False
+            if mag.sym.overflow:
+                return False
+            return self.choose(f"abs({_describe(mag.sym)}) == {c!r} at {site}")
         if isinstance(a, Sym) and a.overflow and (_isnum(b) or (isinstance(b, Sym) and b.overflow)):
             a = a.as_inf()
         if isinstance(b, Sym) and b.overflow and _isnum(a):
@@ -1757,6 +1785,18 @@ class Interp:
                 a = 0.0
         if _isnum(a) and _isnum(b):
             return {ast.Lt: a < b, ast.LtE: a <= b, ast.Gt: a > b, ast.GtE: a >= b}[type(op)]
+        if (numsym(a) and _isnum(b) and b == 0) or (numsym(b) and _isnum(a) and a == 0):
+            # a literal against zero: a symbol stands for the digits as written, with `neg` when a minus sign precedes them; the
+            # digits may be all zeros, so -x < 0 and x > 0 are open (negative zero, zero), the other two directions are not
+            sym, opn = (a, type(op)) if numsym(a) else (b, {ast.Lt: ast.Gt, ast.LtE: ast.GtE, ast.Gt: ast.Lt, ast.GtE: ast.LtE}[type(op)])
+            if not sym.neg and opn in (ast.Lt, ast.GtE):
+                return opn is ast.GtE
+            if sym.neg and opn in (ast.Gt, ast.LtE):
+                return opn is ast.LtE
+            if sym.neg and sym.kind == "int":
+                return opn is ast.Lt          # the integer -0 is the integer 0, which the unsigned symbols stand for: a signed one is negative
+            what = "is zero" if not sym.neg else "is a negative zero"
+            return self.choose(f"{_describe(sym)} {opn.__name__} 0 [i.e. the literal {'is not' if (opn in (ast.Gt, ast.Lt)) else ''} zero: {what} otherwise] at {site}")
         if any(isinstance(x, Sym) and x.kind in ("int", "float") for x in (a, b)) and all(
                 _isnum(x) or (isinstance(x, Sym) and x.kind in ("int", "float")) for x in (a, b)):
             return self.choose(f"{_describe(a)} {type(op).__name__} {_describe(b)} at {site}")
@@ -2454,6 +2494,8 @@ class Interp:
                 return len(v.values)
             if isinstance(v, ClassVal) and v.kind == "enum":
                 return len(self.enum_members(v.name, site))
+            if isinstance(v, Sym) and v.kind in ("str", "rawtoken") and getattr(self, "hash_domain", False):
+                return Opaque("len-of", payload=v)      # the length of an opaque text: equal lengths do not mean equal texts
             raise Unsupported(f"len of {type(v).__name__} at {site}")
         if name == "sorted":
             v = args[0]
@@ -2580,6 +2622,10 @@ class Interp:
             raise Unsupported(f"{name}() of {v!r} at {site}")
         if name == "print":
             return None
+        if name == "id" and len(args) == 1 and getattr(self, "hash_domain", False):
+            # the address of an object: equal for the same object, and possibly equal for two objects that never lived at the same time
+            self.entropy.append(("id()", site))
+            return Opaque("object-id", payload=args[0])
         if name in ("id", "hash"):
             self.entropy.append((name + "()", site))
             raise Unsupported(f"{name}() at {site}: process-dependent value")
@@ -2856,10 +2902,23 @@ class Interp:
             if name == "reverse" and recv.pytype == "list":
                 recv.items.reverse()
                 return None
-            if name == "append" and recv.pytype == "list":
+            if name == "append" and recv.pytype in ("list", "deque"):
                 recv.items.append(args[0])
                 return None
-            if name == "extend" and recv.pytype == "list":
+            if recv.pytype == "deque" and name in ("appendleft", "popleft", "extendleft", "rotate"):
+                if name == "appendleft":
+                    recv.items.insert(0, args[0])
+                    return None
+                if name == "popleft":
+                    if not recv.items:
+                        raise RaiseSig("IndexError", site)
+                    return recv.items.pop(0)
+                if name == "extendleft":
+                    for x in self.iterate(args[0], site):
+                        recv.items.insert(0, x.value if isinstance(x, _Tagged) else x)
+                    return None
+                raise Unsupported(f"deque.{name} at {site}")
+            if name == "extend" and recv.pytype in ("list", "deque"):
                 recv.items.extend(x.value if isinstance(x, _Tagged) else x for x in self.iterate(args[0], site))
                 return None
             if name == "insert" and recv.pytype == "list" and isinstance(args[0], int):
@@ -2867,12 +2926,12 @@ class Interp:
                 return None
             if name == "copy":
                 return AList(list(recv.items), recv.pytype, recv.nondet)
-            if name == "pop" and recv.pytype == "list" and (not args or isinstance(args[0], int)):
+            if name == "pop" and (recv.pytype == "list" or (recv.pytype == "deque" and not args)) and (not args or isinstance(args[0], int)):
                 try:
                     return recv.items.pop(*args)
                 except IndexError:
                     raise RaiseSig("IndexError", site)
-            if name == "clear" and recv.pytype == "list":
+            if name == "clear" and recv.pytype in ("list", "deque"):
                 del recv.items[:]
                 return None
             if name == "index":
@@ -2977,8 +3036,21 @@ class Interp:
             return ADigest(q, tuple(args[:1]), "int")      # a 32-bit checksum: a value of the data, but not a hashlib digest
         if q in ("binascii.hexlify",) and args and isinstance(args[0], ADigest) and args[0].kind == "bytes":
             return self.method(args[0], "hex", [], {}, site)
+        if q in ("keyword.iskeyword", "keyword.issoftkeyword") and len(args) == 1:
+            import keyword as _kw
+            v = args[0]
+            if isinstance(v, Tmpl) and v.is_literal():
+                return getattr(_kw, q.split(".")[1])(v.text())
+            if isinstance(v, Sym) and v.kind in ("ident", "str", "rawtoken"):
+                # an identifier of the DSL may be spelled like any word, also like one Python reserves
+                which = "a Python keyword" if q.endswith("iskeyword") else "a Python soft keyword (match, case, type, _)"
+                return self.choose(f"{_describe(v)} is spelled like {which} at {site}")
         if q == "sys.getrecursionlimit":
             return 1000
+        if q == "sys.get_int_max_str_digits":
+            return 4300
+        if q == "sys.set_int_max_str_digits":
+            return None            # a process setting (C17 judges the call itself)
         if q in ("sys.setrecursionlimit", "sys.setswitchinterval", "gc.collect", "gc.disable", "gc.enable"):
             return None            # process settings do not change what text is generated (C17 judges the call itself)
         if q in ("functools.partial", "partial") and args:
@@ -2995,6 +3067,15 @@ class Interp:
         if q in ("math.ldexp", "ldexp") and len(args) == 2 and isinstance(args[0], ABits) and isinstance(args[1], int):
             from fractions import Fraction
             return ABits(args[0].digest, args[0].byteorder, args[0].scale * Fraction(2) ** args[1])
+        if root == "math" and args and not kwargs and all(_isnum(a_) for a_ in args) and q.count(".") == 1 and q.split(".")[1] in (
+                "sqrt", "log", "log2", "log10", "exp", "floor", "ceil", "trunc", "fabs", "pow", "isfinite", "isinf", "isnan", "copysign",
+                "fsum", "gcd", "hypot", "erf", "erfc", "sin", "cos", "tan", "atan", "asin", "acos", "ldexp", "frexp", "fmod", "expm1", "log1p"):
+            import math as _math
+            try:
+                r_ = getattr(_math, q.split(".")[1])(*args)       # a pure function of constants
+            except (ValueError, OverflowError, ZeroDivisionError, TypeError) as e_:
+                raise RaiseSig(type(e_).__name__, site, q)
+            return AList(list(r_), "tuple") if isinstance(r_, tuple) else r_
         if root in ("math", "cmath") and args and any(isinstance(a_, Num) for a_ in args):
             sp = _sp()
             fn_ = q.split(".")[-1]
@@ -3005,6 +3086,16 @@ class Interp:
                 if r is None:
                     raise Unsupported(f"math.{fn_} of an abstract number is outside the domain of the analysis at {site}")
                 return r
+            if fn_ == "isclose" and len(args) == 2:
+                # equal values are close; for unequal ones closeness depends on how near they are, which no ordering class
+                # fixes (a point strictly inside a slice may lie within the tolerance of its boundary): both outcomes
+                try:
+                    same = self.num_compare("Eq", args[0], args[1], site)
+                except Unsupported:
+                    same = None
+                if same is True:
+                    return True
+                return self.choose(f"isclose({args[0]!r}, {args[1]!r}) although the values differ at {site}")
             if fn_ in ("floor", "trunc"):
                 return Num(self.num_floor(args[0], site, "floor" if fn_ == "floor" else "int()"))
             if fn_ == "ceil":
@@ -3063,6 +3154,9 @@ class Interp:
                     kk = self.dict_key(c, x, site)
                     c.items[kk] = c.items.get(kk, 0) + 1
             return c
+        if q in ("collections.deque", "deque") and len(args) <= 1 and not kwargs:
+            items_ = [x.value if isinstance(x, _Tagged) else x for x in self.iterate(args[0], site)] if args else []
+            return AList(items_, "deque")
         if q in ("collections.OrderedDict", "OrderedDict") and not args:
             return ADict({})
         if q in ("collections.defaultdict", "defaultdict") and len(args) == 1 and isinstance(args[0], Builtin) and args[0].name == "int":
@@ -3173,6 +3267,13 @@ class Interp:
         """str()/repr()/format() of an abstract value as a template."""
         if isinstance(v, _Tagged):
             v = v.value
+        if getattr(self, "trace", None) is not None and not getattr(self, "_in_render", False):
+            self.trace.append(("render", v, how, site))
+            self._in_render = True
+            try:
+                return self.render(v, how, site)
+            finally:
+                self._in_render = False
         if isinstance(v, Tmpl):
             if how == "str":
                 return v
@@ -3251,6 +3352,19 @@ class Interp:
         if isinstance(v, _MapIter):
             self.entropy.append(("repr of a map object (address)", site))
             raise Unsupported(f"str() of a map iterator at {site}")
+        if isinstance(v, Magnitude):
+            import dataclasses as _dc
+            return self.render(_dc.replace(v.sym, neg=False), how, site)      # the digits without the sign (uid kept)
+        if isinstance(v, ADict):
+            out = Tmpl.lit("{")
+            for i, (k, x) in enumerate(v.items.items()):
+                if i:
+                    out = out + Tmpl.lit(", ")
+                out = out + self.render(self._unkey(k), "repr", site) + Tmpl.lit(": ") + self.render(x, "repr", site)
+            return out + Tmpl.lit("}")
+        if isinstance(v, ADigest) and v.kind == "hex":
+            # the text of a hex digest: an opaque string of hex digits
+            return Tmpl((Hole(Sym("str", f"HEXDIGEST:{v.algo}"), how, site),))
         raise Unsupported(f"cannot render {type(v).__name__} at {site}")
 
 
